@@ -199,6 +199,16 @@ def ext_isnan(x, args, kwargs, st, n):
     return VBool(x.as_num(st, args[0], n).nan)
 
 
+def ext_hypot(x, args, kwargs, st, n):
+    """assumed: math.hypot(a, b) is the Euclidean norm: h >= 0 and h*h == a*a + b*b (finite arguments)"""
+    a, b = x.as_num(st, args[0], n), x.as_num(st, args[1], n)
+    h = fresh("hypot", z3.RealSort())
+    x.assume.append(IMP(AND(a.finite, b.finite), AND(h >= 0, h * h == a.val * a.val + b.val * b.val)))
+    sp = ITE(AND(a.finite, b.finite), z3.IntVal(0), ITE(OR(a.nan, b.nan), z3.IntVal(1), z3.IntVal(2)))
+    x.ghost.setdefault("hypot", []).append((a, b, h))
+    return VNum(simp(sp), h, False)
+
+
 def ext_opaque_num(name):
     def h(x, args, kwargs, st, n):
         for a in args: x.as_num(st, a, n)
@@ -273,6 +283,7 @@ def install(x, ctx=None):
     x.ext_names["gcode_table"] = VRef("GCodeTable", -1)
     x.ext_names["math"] = VModule("math")
     x.ext["math.pi"] = num(MATH["pi"])
+    x.ext["math.hypot"] = ext_hypot
     x.ext["math.isfinite"] = ext_isfinite
     x.ext["math.isnan"] = ext_isnan
     x.ext["math.log2"] = ext_opaque_num("log2")      # only feeds the zero-padding width of the T word (tool_change)
